@@ -333,6 +333,12 @@ func run(c Case) vkit.Result {
 		}
 	} else {
 		lo, hi := t0.Unix()+c.TTL-2, t1.Unix()+c.TTL+2
+		const epoch = 1262304000 // the key format counts seconds since 2010-01-01 in 32 bits
+		if hi < epoch+2 {
+			// a requested expiry before the format's epoch is not representable: the key must simply be expired already,
+			// with the earliest representable expiry
+			lo, hi = epoch, epoch+1
+		}
 		if x := k.Expires().Unix(); x < lo || x > hi {
 			r := vkit.Failf("ttl %d requested at %d: key expires at %d (%v), expected within [%d,%d]", c.TTL, t0.Unix(), x, k.Expires(), lo, hi)
 			if t0.Unix()+c.TTL < 1262304000+2 { // requested expiry before the key epoch (2010-01-01): 32-bit field underflows
